@@ -382,6 +382,15 @@ func checkC19() int {
 				}
 				w["in_sequence"] = fmt.Sprintf("%+v", got)
 				w["alone"] = fmt.Sprintf("%+v", *b)
+				if r2.Run != nil {
+					w["live_in_sequence"] = liveStrings(r2.Run.Live)
+					w["run_flags"] = fmt.Sprintf("premature=%v watchdog=%v overrun=%v elapsed_us=%d", r2.Run.Premature, r2.Run.Watchdog, r2.Run.Overrun, r2.Run.ElapsedUs)
+				}
+				var texts []string
+				for q := 0; q <= i; q++ {
+					texts = append(texts, items[m.idx[q]].text)
+				}
+				w["programs"] = texts
 				c.Violation(fmt.Sprintf("the %s of a program differs after a history (%s order)", what, m.kind), w)
 				bad = true
 				break
